@@ -476,6 +476,14 @@ def rule_r4(ctx) -> RuleResult:
         if isinstance(e, ast.Call) and isinstance(e.func, ast.Attribute) and e.func.attr in ("lstrip", "strip") and e.args \
                 and isinstance(e.args[0], ast.Constant):
             return steps_of(e.func.value) + [(e.func.attr, e.args[0].value, None)]
+        if isinstance(e, ast.Call) and isinstance(e.func, ast.Attribute) and e.func.attr == "translate" and len(e.args) == 1 and not e.keywords:
+            try:
+                tbl = ctx.index.fold("luaexec", e.args[0])
+            except Exception:  # noqa: BLE001
+                tbl = None
+            if not isinstance(tbl, dict) or not all(isinstance(k_, int) for k_ in tbl):
+                raise AnalysisError("lua_loader: the table of .translate() cannot be folded (inconclusive)")
+            return steps_of(e.func.value) + [("translate", tbl, None)]
         if isinstance(e, ast.BinOp) and isinstance(e.op, ast.Add) and isinstance(e.right, ast.Constant):
             return steps_of(e.left) + [("suffix", e.right.value, None)]
         if isinstance(e, ast.JoinedStr):
@@ -534,6 +542,21 @@ def rule_r4(ctx) -> RuleResult:
                 st["dotdot"] = True
             if a2 == "" and a1 not in ("/", "."):
                 st["dotdot"] = st["double_slash"] = st["leading_slash"] = True  # a deletion, as above
+        elif kind == "translate":
+            deleted = {chr(k_) for k_, v_ in a1.items() if v_ is None or v_ == ""}
+            mapped = {chr(k_): (v_ if isinstance(v_, str) else chr(v_)) for k_, v_ in a1.items() if not (v_ is None or v_ == "")}
+            seen_ops.append("translate(delete {} chars, map {})".format(len(deleted), sorted(mapped.items())))
+            if all(chr(c_) in deleted for c_ in range(0o40)):
+                st["ctrl"] = False
+            if deleted - {"/", "."}:
+                # a deletion: what was apart is joined (".\x01." -> ".."), every structural fact established so far is void again
+                st["dotdot"] = st["double_slash"] = st["leading_slash"] = True
+            for k_, v_ in mapped.items():
+                if "/" in v_:
+                    st["leading_slash"] = True
+                    st["double_slash"] = True
+                if "." in v_:
+                    st["dotdot"] = True
         elif kind == "components":
             seen_ops.append("split('/') -> filter(empty: {}, dots: {}) -> join('/')".format(a1, a2))
             if a1:  # no empty component: neither a leading nor a doubled slash
@@ -695,5 +718,201 @@ def rule_r7(ctx) -> RuleResult:
                   min_instances=3)
 
 
+_MUTABLE_TYPES = {"dict", "list", "set", "Dict", "List", "Set", "defaultdict", "deque", "OrderedDict", "bytearray"}
+
+
+def _ann_is_container(a) -> bool:
+    if isinstance(a, ast.Constant) and isinstance(a.value, str):
+        try:
+            a = ast.parse(a.value, mode="eval").body
+        except SyntaxError:
+            return False
+    if isinstance(a, ast.Name):
+        return a.id in _MUTABLE_TYPES
+    if isinstance(a, ast.Attribute):
+        return a.attr in _MUTABLE_TYPES
+    if isinstance(a, ast.Subscript):
+        return _ann_is_container(a.value)
+    return False
+
+
+def _ann_element(a):
+    """annotation of the values of a mapping / the items of a sequence, or None"""
+    if isinstance(a, ast.Constant) and isinstance(a.value, str):
+        try:
+            a = ast.parse(a.value, mode="eval").body
+        except SyntaxError:
+            return None
+    if isinstance(a, ast.Subscript):
+        base = a.value.id if isinstance(a.value, ast.Name) else (a.value.attr if isinstance(a.value, ast.Attribute) else "")
+        sl = a.slice
+        if base in ("dict", "Dict", "defaultdict", "Mapping", "OrderedDict") and isinstance(sl, ast.Tuple) and len(sl.elts) == 2:
+            return sl.elts[1]
+        if base in ("list", "List", "Sequence", "set", "Set", "Iterable", "tuple", "Tuple", "deque"):
+            return sl.elts[0] if isinstance(sl, ast.Tuple) else sl
+        if base == "Optional":
+            return _ann_element(sl)
+    return None
+
+
+class _Elements:
+    """What does a non-recursive table_from(E) leave inside the Lua table?  lupa converts only the outer container; each value is
+    handed over as it is, so a dict/list/set value arrives in Lua as a *live Python object* (indexable and assignable from Lua
+    code).  Kinds: 'container' (positively a mutable Python container), 'inert' (immutable / Lua value), 'unknown'."""
+
+    def __init__(self, ctx, modname: str, fn):
+        self.ctx, self.modname, self.fn = ctx, modname, fn
+        self.mod = ctx.index.mod(modname)
+        self.params = {a.arg: a.annotation for a in fn.args.args + fn.args.kwonlyargs}
+        self.visiting: set = set()
+        self.why = ""
+
+    def _callee(self, call):
+        f = call.func
+        name = f.id if isinstance(f, ast.Name) else None
+        if name is None:
+            return None
+        if name in self.mod.funcs:
+            return self.mod.funcs[name]
+        for n in ast.walk(self.mod.tree):
+            if isinstance(n, ast.ImportFrom) and n.level >= 1 and n.module:
+                for a in n.names:
+                    if (a.asname or a.name) == name and self.ctx.index.has_func(n.module + "." + a.name):
+                        return self.ctx.index.func(n.module + "." + a.name)
+        return None
+
+    def _comp_binding(self, name: str, comp):
+        """X when `name` is the value variable of `for k, name in X.items()` / `for name in X.values()` / `for name in X`"""
+        for g in comp.generators:
+            it = g.iter
+            if isinstance(g.target, ast.Tuple) and len(g.target.elts) == 2 and isinstance(g.target.elts[1], ast.Name) and g.target.elts[1].id == name \
+                    and isinstance(it, ast.Call) and isinstance(it.func, ast.Attribute) and it.func.attr == "items":
+                return it.func.value
+            if isinstance(g.target, ast.Name) and g.target.id == name:
+                if isinstance(it, ast.Call) and isinstance(it.func, ast.Attribute) and it.func.attr == "values":
+                    return it.func.value
+                return it
+        return None
+
+    def value(self, v, comps=()) -> str:
+        if isinstance(v, (ast.Constant, ast.JoinedStr, ast.Compare, ast.BoolOp, ast.Tuple, ast.Lambda)):
+            return "inert"
+        if isinstance(v, (ast.Dict, ast.List, ast.Set, ast.DictComp, ast.ListComp, ast.SetComp)):
+            self.why = "`{}` is a Python {}".format(unparse(v)[:40], type(v).__name__.lower())
+            return "container"
+        if isinstance(v, ast.IfExp):
+            ks = {self.value(v.body, comps), self.value(v.orelse, comps)}
+            return "container" if "container" in ks else ("unknown" if "unknown" in ks else "inert")
+        if isinstance(v, ast.Call):
+            f = unparse(v.func)
+            if f.endswith("table_from") or f in ("str", "int", "float", "bool", "len", "repr", "tuple", "frozenset") or f.endswith(".format") or f.endswith(".join"):
+                return "inert"
+            if f in ("dict", "list", "set", "defaultdict", "deque") or f in ("copy.deepcopy", "copy.copy", "deepcopy") and v.args and \
+                    self.value(v.args[0], comps) == "container":
+                self.why = "`{}` builds a Python container".format(unparse(v)[:40])
+                return "container"
+            callee = self._callee(v)
+            if callee is not None and callee.returns is not None and _ann_is_container(callee.returns):
+                self.why = "`{}` returns {}".format(unparse(v)[:40], unparse(callee.returns)[:50])
+                return "container"
+            return "unknown"
+        if isinstance(v, ast.Name):
+            for comp in comps:
+                src = self._comp_binding(v.id, comp)
+                if src is not None:
+                    return self.elements(src, comps)
+            return self._name(v.id, lambda e: self.value(e, comps), want_value=True)
+        return "unknown"
+
+    def _name(self, name: str, via, want_value: bool) -> str:
+        key = (name, want_value)
+        if key in self.visiting:
+            return "inert"  # neutral element of the join
+        self.visiting.add(key)
+        try:
+            kinds = set()
+            if name in self.params and self.params[name] is not None:
+                a = self.params[name]
+                el = a if want_value else _ann_element(a)
+                if el is not None and _ann_is_container(el):
+                    self.why = "parameter `{}: {}`".format(name, unparse(a)[:50])
+                    kinds.add("container")
+                else:
+                    kinds.add("unknown")
+            for n in walk_no_nested(self.fn):
+                tgt = val = None
+                if isinstance(n, ast.Assign) and len(n.targets) == 1:
+                    tgt, val = n.targets[0], n.value
+                elif isinstance(n, ast.AnnAssign) and n.value is not None:
+                    tgt, val = n.target, n.value
+                if isinstance(tgt, ast.Name) and tgt.id == name:
+                    kinds.add(via(val))
+                elif not want_value and isinstance(tgt, ast.Subscript) and isinstance(tgt.value, ast.Name) and tgt.value.id == name:
+                    kinds.add(self.value(val))
+                elif not want_value and isinstance(n, ast.Call) and isinstance(n.func, ast.Attribute) and n.func.attr in ("append", "add") \
+                        and isinstance(n.func.value, ast.Name) and n.func.value.id == name and n.args:
+                    kinds.add(self.value(n.args[0]))
+            if not kinds:
+                return "unknown"
+            return "container" if "container" in kinds else ("unknown" if "unknown" in kinds else "inert")
+        finally:
+            self.visiting.discard(key)
+
+    def elements(self, e, comps=()) -> str:
+        """kind of the values (mapping) / items (sequence) of the container expression e"""
+        if isinstance(e, ast.Dict):
+            ks = {self.value(v, comps) for v in e.values}
+        elif isinstance(e, (ast.List, ast.Set, ast.Tuple)):
+            ks = {self.value(v, comps) for v in e.elts}
+        elif isinstance(e, ast.DictComp):
+            ks = {self.value(e.value, (e,) + tuple(comps))}
+        elif isinstance(e, (ast.ListComp, ast.SetComp, ast.GeneratorExp)):
+            ks = {self.value(e.elt, (e,) + tuple(comps))}
+        elif isinstance(e, ast.Name):
+            return self._name(e.id, lambda v: self.elements(v, comps), want_value=False)
+        elif isinstance(e, ast.Call):
+            f = unparse(e.func)
+            if f in ("list", "dict", "tuple", "set", "sorted", "copy.deepcopy", "copy.copy", "deepcopy") and e.args:
+                return self.elements(e.args[0], comps)
+            callee = self._callee(e)
+            el = _ann_element(callee.returns) if callee is not None and callee.returns is not None else None
+            if el is not None:
+                if _ann_is_container(el):
+                    self.why = "`{}` returns {}".format(unparse(e)[:40], unparse(callee.returns)[:60])
+                    return "container"
+                return "inert"
+            return "unknown"
+        else:
+            return "unknown"
+        return "container" if "container" in ks else ("unknown" if "unknown" in ks else "inert")
+
+
+def rule_r8(ctx) -> RuleResult:
+    """`lua.table_from(x)` without `recursive=True` converts the outer container only.  A dict / list / set left inside it reaches
+    the module as a live Python object: the module can index it *and assign into it* (lupa maps `t.k = v` to `__setitem__`), so
+    whatever the Python side keeps referring to -- a cached map, the page store's row, the context's tables -- can be rewritten by
+    code from a page (seed C06-8B: the cached interwiki map handed out with its inner dicts unconverted)."""
+    rr = RuleResult("C06.R8", "a Python container converted for Lua has no live Python container inside it", min_instances=8)
+    for dotted, m, f in ctx.index.all_functions():
+        for c in walk_no_nested(f):
+            if not (isinstance(c, ast.Call) and c.args and ((isinstance(c.func, ast.Attribute) and c.func.attr == "table_from")
+                                                          or (isinstance(c.func, ast.Name) and c.func.id == "table_from"))):
+                continue
+            ctx.touched(dotted, m.relpath)
+            rec = [k for k in c.keywords if k.arg == "recursive"]
+            if rec and isinstance(rec[0].value, ast.Constant) and rec[0].value.value is True:
+                rr.ok(dotted, "table_from(..., recursive=True)", {"site": dotted, "line": c.lineno, "kind": "recursive"})
+                continue
+            el = _Elements(ctx, dotted.split(".")[0], f)
+            kind = el.elements(c.args[0])
+            if kind == "container":
+                rr.bad(Finding("C06.R8", m.relpath, dotted, "table_from({})".format(unparse(c.args[0])[:50]),
+                               "the converted table keeps a live Python container as a value ({}): Lua code can assign into it and thereby "
+                               "change the Python-side object for every later caller".format(el.why), c.lineno))
+            else:
+                rr.ok(dotted, "table_from({}): values {}".format(unparse(c.args[0])[:40], kind), {"site": dotted, "line": c.lineno, "kind": kind})
+    return rr
+
+
 def run(ctx) -> list:
-    return [rule_r1(ctx), rule_r2(ctx), rule_r3(ctx), rule_r4(ctx), rule_r5(ctx), rule_r6(ctx), rule_r7(ctx)]
+    return [rule_r1(ctx), rule_r2(ctx), rule_r3(ctx), rule_r4(ctx), rule_r5(ctx), rule_r6(ctx), rule_r7(ctx), rule_r8(ctx)]
